@@ -79,6 +79,16 @@ def build_carriers():
     out.append(b'require ["relational", "regex"]; require "body"; if anyof (header :count "gt" "a" "1", body :regex "x") { keep; }')
     out.append(b'require "imap4flags"; keep; require "mailbox"; fileinto :create "x";')
     out.append(b'require "fileinto"; require "fileinto"; fileinto "x";')
+    # a require that does NOT name what is used: one string with a comma, a related extension only
+    out.append(b'require "fileinto,copy"; fileinto :copy "a";')
+    out.append(b'require ["fileinto,", ",reject"]; fileinto "a"; reject "b";')
+    out.append(b'require "relational,regex"; if header :regex "a" "b" { keep; }')
+    out.append(b'require "vacation-seconds"; vacation :seconds 60 "away";')
+    out.append(b'require "copy"; fileinto :copy "a";')
+    out.append(b'require ["mailbox", "imap4flags"]; fileinto :create :flags "f" "a";')
+    out.append(b'require "relational"; if envelope :count "gt" "a" "1" { keep; }')
+    out.append(b'require "FILEINTO"; fileinto "a";')
+    out.append(b'require " fileinto"; fileinto "a";')
     out.append(b'require "date"; if currentdate "a" "b" { keep; } require "variables"; set "a" "b"; if date "a" "b" "c" { stop; }')
     return out
 
